@@ -6,9 +6,8 @@ USES = ["shared"]
 
 MODES = "csvpath/modes"
 CF["ModeController"].update({"g_meta": "dict[str,val]"})
-for _cls, _fld, _t in [("ReturnMode", "_return_mode", "optbool"), ("RunMode", "_run_mode", "optbool"), ("LogicMode", "_AND", "optbool"),
-                       ("UnmatchedMode", "_unmatched_mode", "optbool"), ("SourceMode", "_source_mode", "optbool"), ("ExplainMode", "_explain", "optbool")]:
-    CF.setdefault(_cls, {}).update({_fld: _t, "controller": "obj:ModeController"})
+for _cls in ("ReturnMode", "RunMode", "LogicMode", "UnmatchedMode", "SourceMode", "ExplainMode"):
+    CF.setdefault(_cls, {}).setdefault("controller", "obj:ModeController")
 
 P_GET = "def patch(self, mode):\n    return self.g_meta.get(mode)\n"
 NATIVE = {"patches": {"csvpath.modes.mode_controller.ModeController.get": P_GET}}
@@ -59,9 +58,7 @@ def mode_contracts():
 
 
 def contracts():
-    keep = ("CsvPath._consider_line", "CsvPath.next")
-    cr = [c for c in core.contracts() if c.interface or getattr(c, "_foreign", False) or c.ident in keep]
-    return cr + mode_contracts()
+    return core.select(core.contracts(), ("CsvPath._consider_line", "CsvPath.next")) + mode_contracts()
 
 
 LEVEL = "other"
